@@ -10,6 +10,7 @@
 import PsutilModel.Proofs.C19
 import PsutilModel.Proofs.C19Battery
 import PsutilModel.Proofs.C19Cpu
+import PsutilModel.Proofs.C19Text
 import PsutilModel.Model.C19Gen
 namespace Psutil.C19
 open Spec
@@ -243,5 +244,174 @@ example : ∃ c s, (hwmonRow c s).isSome ∧ ∃ s', s'.listed = true ∧ hwmonR
 example : ∃ v, zoneThresh bCritical l16Trips = some v := ⟨_, by
   have e : tripsOfType bCritical l16Trips = [l16Trips[0]] := by decide
   unfold zoneThresh; rw [e]⟩
+
+/-! ## fans -/
+
+/-- **Fans.** RPM as an integer, label optional, a fan whose reading is missing or unreadable is
+    skipped; the `device/` level is consulted only when no direct fan file exists. (The property is
+    silent — and the code raises — when a reading is readable but not an integer, or the chip name
+    of a readable fan cannot be read.) -/
+theorem C19_fans_refine (chips : List Chip) (l : List FanOut) (h : fans chips = some l) :
+    sensorsFans cfg chips = .ok l := fans_refine cfg cfg_good chips l h
+
+/-! ## battery -/
+
+/-- **Refinement.** Whenever the specification determines the answer (every consulted file is
+    absent, unreadable or holds an integer), `sensors_battery()` returns exactly it: the battery
+    with the lexicographically smallest name among those called `BAT*` / `*battery*`, the first
+    readable of each pair of alternative files, percent, plugged and seconds left as stated. -/
+theorem C19_battery_refines (p : PowerTree) (v : Option BatOut) (h : battery p = some v) :
+    sensorsBattery cfg p = .ok v := battery_refines cfg cfg_good p v h
+
+/-- no battery → None -/
+theorem C19_none_when_absent_battery (p : PowerTree) (hd : p.dirExists = true)
+    (h : ∀ s ∈ p.supplies, isBatteryName s.name = false) : sensorsBattery cfg p = .ok none := by
+  apply C19_battery_refines
+  unfold battery
+  have : firstBattery p.supplies = none := by
+    unfold firstBattery
+    have : p.supplies.filter (fun s => isBatteryName s.name) = [] := by
+      rw [List.filter_eq_nil_iff]; intro s hs; simp [h s hs]
+    simp [this]
+  simp [hd, this]
+
+/-- **first battery = lexicographic minimum of the battery names** -/
+theorem C19_first_battery (ss : List Supply) (b : Supply) (h : firstBattery ss = some b) :
+    b ∈ ss ∧ isBatteryName b.name = true ∧ ∀ b' ∈ ss, isBatteryName b'.name = true → lexLe b.name b'.name = true := by
+  unfold firstBattery at h
+  have h1 := List.mem_of_find?_eq_some h
+  have h2 := List.find?_some h
+  rw [List.mem_filter] at h1
+  refine ⟨h1.1, h1.2, fun b' hb' hn => ?_⟩
+  rw [List.all_eq_true] at h2
+  exact h2 b' (List.mem_filter.mpr ⟨hb', hn⟩)
+
+/-- **percent = now/full·100**, 0 when full = 0 -/
+theorem C19_percent (b : Supply) (now full : Int) :
+    batPercent cfg b (some (.int now)) (some (.int full))
+      = .ok (some (if full = 0 then 0 else 100 * (now : Rat) / (full : Rat))) := by
+  have hg := cfg_good
+  unfold batPercent
+  rw [hg.pct]
+  by_cases h : full = 0 <;> simp [h]
+
+/-- …the `capacity` file when either figure is missing; no capacity → None -/
+theorem C19_percent_capacity (b : Supply) (now : Option MVal) (cp : Int)
+    (hc : b.capacity = .content (kernelInt cp)) :
+    batPercent cfg b now none = .ok (if cp = -1 then none else some (cp : Rat)) ∧
+    (∀ b' : Supply, b'.capacity.readOpt = none → batPercent cfg b' now none = .ok none) := by
+  constructor
+  · unfold batPercent batCapacity
+    cases now <;> by_cases h : cp = -1 <;> simp [hc, FileState.readOpt, pyInt_kernelInt, h]
+  · intro b' hb'
+    unfold batPercent batCapacity
+    cases now <;> simp [hb']
+
+/-- **plugged**: mains adapter `online` (AC0, else AC) = 1, else the status text -/
+theorem C19_plugged (ss : List Supply) (b : Supply) : batPlugged cfg ss b = pluggedOf ss b :=
+  (plugged_eq cfg cfg_good ss b).symm
+
+/-- **secsleft**: plugged → UNLIMITED; else now/power·3600 truncated; power = 0 → UNKNOWN; else
+    time_to_empty·60 (negative → UNKNOWN); else UNKNOWN -/
+theorem C19_secsleft (pl : Option Bool) (now pw tte : Option Int) :
+    batSecsleft cfg pl (now.map .int) (pw.map .int) (tte.map .int) = .ok (secsleftOf pl now pw tte) := by
+  have h := secsleft_eq cfg cfg_good pl (now.map .int) (pw.map .int) (tte.map .int)
+    (by cases now <;> simp [mvOf]) (by cases pw <;> simp [mvOf]) (by cases tte <;> simp [mvOf])
+  rw [h]
+  cases now <;> cases pw <;> cases tte <;> simp [mvOf]
+
+theorem C19_secsleft_rules (n p m : Int) (hp : p ≠ 0) :
+    secsleftOf (some true) (some n) (some p) (some m) = -2 ∧
+    secsleftOf (some false) (some n) (some p) (some m) = truncRat ((n : Rat) / (p : Rat) * 3600) ∧
+    secsleftOf none (some n) (some 0) (some m) = -1 ∧
+    secsleftOf none none (some p) (some m) = (if m * 60 < 0 then -1 else m * 60) ∧
+    secsleftOf none (some n) none none = -1 := by
+  simp [secsleftOf, hp]
+
+/-- alternative file names: the first readable one wins, as an integer -/
+theorem C19_alternatives (a b : FileState) : mvOf (multiBcat [a, b]) = altInt a b := mvOf_multi2 a b
+
+example : ∃ p v, battery p = some v := ⟨{ dirExists := true, supplies := [] }, none, by decide⟩
+
+/-! ## cpu_freq -/
+
+/-- **kHz → MHz** for every policy directory; the /proc/cpuinfo value is preferred when there is
+    one per policy; a policy with no frequency file at all whose CPU is offline gives zeros. -/
+theorem C19_cpu_freq_scaling (online : List (Nat × FileState)) (i : Nat) (info : Option Rat) (p : Policy)
+    (fr : Freq) (h : policyRow p info (offline online i) = some fr) :
+    policyFreq cfg online i info p = .ok fr := policyFreq_refines cfg cfg_good online i info p fr h
+
+/-- kernel-format files: current/min/max = value/1000 -/
+theorem C19_cpu_freq_khz (p : Policy) (cur mn mx : Int) (online : List (Nat × FileState)) (i : Nat)
+    (h1 : p.scalingCur = .content (kernelInt cur)) (h2 : p.scalingMin = .content (kernelInt mn))
+    (h3 : p.scalingMax = .content (kernelInt mx)) :
+    policyFreq cfg online i none p = .ok ⟨(cur : Rat) / 1000, (mn : Rat) / 1000, (mx : Rat) / 1000⟩ := by
+  apply C19_cpu_freq_scaling
+  simp [policyRow, curOf, fileInt, FileState.readOpt, h1, h2, h3, pyInt_kernelInt, perMille]
+
+/-- the whole platform list (both module variants), given the MHz values read from /proc/cpuinfo -/
+theorem C19_cpu_freq_refines (variant : Bool) (blocks : List CpuBlock) (t : FreqTree)
+    (hci : cpuinfoFreqs t.cpuinfo = .ok (blocks.map blockMhz)) (l : List Freq)
+    (h : freqList variant blocks t = some l) : cpuFreqPlat cfg variant t = .ok l :=
+  cpuFreqPlat_refines cfg cfg_good variant blocks t hci l h
+
+/-- /proc/cpuinfo as the kernel prints it (`cpu MHz : %u.%03u` per processor block) is read back
+    exactly: one MHz value per block -/
+theorem C19_cpuinfo_freqs (blocks : List CpuBlock) (h : ∀ b ∈ blocks, b.mhzMilli < 1000) :
+    cpuinfoFreqs (.content (renderCpuinfo blocks)) = .ok (blocks.map blockMhz) := by
+  simp only [cpuinfoFreqs, FileState.read, linesOf_renderCpuinfo, cpuinfoFreqLines_blocks blocks h]
+
+/-- end to end for a kernel-format cpuinfo: both module variants return the specified list
+    (cpuinfo variant: `(MHz, 0, 0)` per processor; sysfs variant: kHz files / 1000, cpuinfo value
+    preferred when the counts match, offline CPU → zeros) -/
+theorem C19_cpu_freq_end_to_end (variant percpu : Bool) (blocks : List CpuBlock) (t : FreqTree)
+    (hb : ∀ b ∈ blocks, b.mhzMilli < 1000) (hci : t.cpuinfo = .content (renderCpuinfo blocks))
+    (l : List Freq) (h : freqList variant blocks t = some l) :
+    cpuFreq cfg variant percpu t = .ok (freqFront percpu l) := by
+  have h1 := C19_cpu_freq_refines variant blocks t (by rw [hci]; exact C19_cpuinfo_freqs blocks hb) l h
+  simp [cpuFreq, h1, cpuFreqFront_eq]
+
+/-- **percpu=False: the arithmetic mean of each column; no CPU → None; one CPU → that entry.** -/
+theorem C19_cpu_freq_mean (percpu : Bool) (l : List Freq) : cpuFreqFront percpu l = freqFront percpu l :=
+  cpuFreqFront_eq percpu l
+
+theorem C19_cpu_freq_none : cpuFreqFront false [] = .none := rfl
+
+theorem C19_cpu_freq_one (f : Freq) : cpuFreqFront false [f] = .one f := rfl
+
+/-! ## cpu_count, cpu_stats, boot_time -/
+
+/-- `os.sysconf` answers → that number (None when < 1) -/
+theorem C19_cpu_count_sysconf (t : CountTree) (n : Int) (h : t.sysconf = some n) :
+    cpuCount true t = .ok (countOut n) := by
+  simp only [cpuCount, cpuCountLogicalPlat, h, if_true, countOut]
+  split <;> rfl
+
+/-- sysconf fails → the number of `processor` blocks of a kernel-format /proc/cpuinfo -/
+theorem C19_cpu_count_cpuinfo (t : CountTree) (blocks : List CpuBlock) (h1 : t.sysconf = none)
+    (h2 : t.cpuinfo = .content (renderCpuinfo blocks)) (h3 : blocks ≠ []) :
+    cpuCount true t = .ok (some blocks.length) := by
+  have hl : blocks.length ≠ 0 := by cases blocks <;> simp_all
+  simp only [cpuCount, cpuCountLogicalPlat, h1, h2, FileState.read, if_true, linesOf_renderCpuinfo,
+    count_processor_blocks, ne_eq, hl, not_false_eq_true]
+  have : ¬ ((blocks.length : Int) < 1) := by omega
+  simp [this]
+
+/-- last resort: the `cpuN` rows of a kernel-format /proc/stat (cpuinfo without `processor` lines) -/
+theorem C19_cpu_count_stat_rows (t : CountTree) (r : StatRec) (ci : Bytes) (h1 : t.sysconf = none)
+    (h2 : t.cpuinfo = .content ci) (h3 : countWhere (fun l => kProcessor.isPrefixOf (lower l)) (linesOf ci) = 0)
+    (h4 : t.stat = .content (renderStat r)) : cpuCount true t = .ok (countOut r.cpus.length) := by
+  simp only [cpuCount, cpuCountLogicalPlat, h1, h2, h3, h4, FileState.read, if_true, renderStat,
+    linesOf_unlines _ (statLines_no_nl r), count_stat_rows, ne_eq, not_true_eq_false, if_false, countOut]
+  cases hz : r.cpus.length with
+  | zero => simp
+  | succ k => simp; split <;> rfl
+
+/-- **cpu_stats**: ctxt, first number of `intr`, first number of `softirq` of a kernel-format /proc/stat -/
+theorem C19_cpu_stats (r : StatRec) :
+    cpuStats (.content (renderStat r)) = .ok ⟨some r.ctxt, some r.intr, some r.softirq⟩ := cpuStats_render r
+
+/-- **boot_time**: the `btime` line -/
+theorem C19_boot_time (r : StatRec) : bootTime (.content (renderStat r)) = .ok (r.btime : Rat) := bootTime_render r
 
 end Psutil.C19
